@@ -18,7 +18,7 @@ class C14V : public Check
 public:
     const char *id() { return "C14"; }
     const char *opName(int k) { return mtOpName(k); }
-    int quickRuns() { return 48; }
+    int quickRuns() { return 160; }
     int recheckEvery() { return 12; }
     int quickSeconds() { return 120; }
     int thoroughSeconds() { return 900; }
@@ -48,7 +48,7 @@ public:
         char epath[256]; snprintf(epath, sizeof epath, "%s/C14.vg.%d.err", tmpDir().c_str(), (int)getpid());
         writeFile(path, planToString(p, NULL));
         char self[4096]; ssize_t n = readlink("/proc/self/exe", self, sizeof self - 1); self[n > 0 ? n : 0] = 0;
-        std::string cmd = std::string("valgrind -q --error-exitcode=0 --num-callers=8 --undef-value-errors=yes --leak-check=no ") + self + " --inter " + path + " 2>" + epath;
+        std::string cmd = std::string("valgrind -q --error-exitcode=0 --num-callers=8 --undef-value-errors=yes --leak-check=no --fullpath-after= ") + self + " --inter " + path + " 2>" + epath;
         FILE *pp = popen(cmd.c_str(), "r"); if(!pp) { run.fail("harness", "popen", "popen failed"); return; }
         char line[512]; bool ok = false; std::vector<uint64_t> marks;
         while(fgets(line, sizeof line, pp)) { if(line[0] == 'M') marks.push_back(strtoull(line + 2, NULL, 10)); else if(line[0] == 'S') run.simSeconds += atof(line + 2); else if(line[0] == 'E') ok = true; }
@@ -70,7 +70,8 @@ public:
             size_t colon = fr.find(": "); if(colon == std::string::npos) continue; std::string rest = fr.substr(colon + 2);
             size_t par = rest.rfind(" ("); std::string fn = par == std::string::npos ? rest : rest.substr(0, par), loc = par == std::string::npos ? "" : rest.substr(par + 2);
             if(loc.compare(0, 3, "in ") == 0) continue;                       // no source: libc / libstdc++ / valgrind's own
-            std::string file = loc.substr(0, loc.find(':')); if(harnessFile(file)) continue;
+            std::string file = loc.substr(0, loc.find(':')); if(file.find("/src/") == std::string::npos || file.find("/verif/") != std::string::npos) continue;   // innermost frame must be a library source file (full paths)
+            { size_t sl = file.rfind('/'); if(sl != std::string::npos) loc = loc.substr(sl + 1); }
             size_t pa = fn.find('('); if(pa != std::string::npos) fn = fn.substr(0, pa);
             size_t h2 = head.find("== "); if(h2 != std::string::npos) head = head.substr(h2 + 3);
             if(!found.count(fn)) found[fn] = head + " in " + fn + " (" + loc;
